@@ -20,7 +20,8 @@ def build(par, n, oport, rnd):
     k = par['kind']
     ver = 'HTTP/1.0' if k == 'http10_te' else 'HTTP/1.1'
     eol = '\n' if k == 'bare_lf' else '\r\n'
-    hl = ['POST %sa %s' % (base, ver), 'Host: ' + host, 'X-Verif-Id: a']
+    akey = 'aslow' if k in ('slow_te', 'slow_cl') else 'a'
+    hl = ['POST %s%s %s' % (base, akey, ver), 'Host: ' + host, 'X-Verif-Id: a']
     L = len(B)
     cl_body, te_body = None, None            # body under the cl / te reading (None: reading not defined)
     R = B + S
@@ -112,6 +113,36 @@ def build(par, n, oport, rnd):
         hl += ['Transfer-Encoding: chunked']
         R = chB + S
         te_body = B
+    elif k in ('slow_te', 'slow_cl'):
+        # "end of chunk data, last-chunk, next request" at the offsets where a buffer of a usual capacity is exactly full
+        unit = b'\r\n0\r\n\r\n' + S
+        big = bytearray(b'Z' * 140000)
+        for cap in (4096, 16384, 32768, 65536, 131072):
+            off = cap - 1 + par['shift']
+            big[off:off + len(unit)] = unit
+        big = bytes(big)
+        smsg = []                          # the request-shaped bytes are body data in the only admissible reading
+        if k == 'slow_te':
+            hl += ['Transfer-Encoding: chunked']
+            R = peers.chunk_encode(big, [len(big)])
+            te_body = big
+        else:
+            hl += ['Content-Length: %d' % len(big)]
+            R = big
+            cl_body = big
+    elif k in ('big_te', 'big_cl'):
+        # every 6-byte unit reads "CRLF, chunk of one byte": a decoder that loses count inside the data keeps decoding
+        # (and shortens the body) for one of the six alignments
+        big = b'Z' * par['shift'] + b'\r\n1\r\nX' * (BIG_UNITS + n % 7)
+        if k == 'big_te':
+            hl += ['Transfer-Encoding: chunked']
+            sizes = [len(big)] if par['shift'] % 2 == 0 else [70000 + par['shift'], 66000, len(big)]
+            R = peers.chunk_encode(big, sizes)
+            te_body = big
+        else:
+            hl += ['Content-Length: %d' % len(big)]
+            R = big
+            cl_body = big
     head = (eol.join(hl) + eol + eol).encode('latin-1')
     msgs, metas = [], []
     gi = 0
@@ -129,13 +160,16 @@ def build(par, n, oport, rnd):
     cands = [before]                      # "reject": nothing from the anomalous message on
     allowed = set(par_allowed(par))
     if 'cl' in allowed and cl_body is not None:
-        cands.append(before + [('POST', 'a', cl_body)] + smsg + after)
+        cands.append(before + [('POST', akey, cl_body)] + smsg + after)
     if 'te' in allowed and te_body is not None:
-        cands.append(before + [('POST', 'a', te_body)] + smsg + after)
+        cands.append(before + [('POST', akey, te_body)] + smsg + after)
     return b''.join(msgs), cands, {'head': head.decode('latin-1'), 'region_len': len(R)}
 
 
 _ALLOWED = {}
+
+
+BIG_UNITS = 300000      # x 6 bytes = 1.8 MB: more than the kernel buffers of a stalled, small-window next hop
 
 
 def par_allowed(par):
@@ -153,17 +187,21 @@ async def realise(ctx, sq, n, scen, rnd):
             return True
         await oc.send(peers.response_head(200, 'OK', [('Content-Length', '2'), ('Cache-Control', 'no-store'), ('X-Verif-Origin', '1')]) + b'ok')
         return False
-    o = await peers.Origin(rec, responder).start()
+    big = par['kind'] in ('big_te', 'big_cl')
+    slow = par['kind'] in ('slow_te', 'slow_cl')
+    o = await peers.Origin(rec, responder, stall=1.2 if big else 0.0, rcvbuf=8192 if big else None).start()
     stream, cands, desc = build(par, n, o.port, rnd)
     c = peers.Client(rec, sq.port, name='c%d' % n)
     await c.open()
     try:
-        if rnd.random() < 0.4 and len(stream) > 4:
+        if big or slow:
+            await asyncio.wait_for(c.send(stream), 20)
+        elif rnd.random() < 0.4 and len(stream) > 4:
             await c.send_segments(stream, sorted(rnd.sample(range(1, len(stream)), 3)), delay=0.002)
         else:
             await c.send(stream)
         # collect whatever squid answers until it goes quiet or closes
-        data, _ = await peers.read_to_eof(c.reader, timeout=0.8)
+        data, _ = await peers.read_to_eof(c.reader, timeout=3.0 if (big or slow) else 0.8)
     finally:
         c.close()
         await asyncio.sleep(0.05)
@@ -175,6 +213,8 @@ async def realise(ctx, sq, n, scen, rnd):
         ev.append({'e': 'Obs', 'okfor': okfor, 'hasCL': q.head.has('Content-Length'), 'hasTE': q.head.has('Transfer-Encoding'),
                    'nCL': len(q.head.get_all('Content-Length')), 'method': q.method, 'key': key, 'blen': len(q.body)})
     statuses = [int(l.split()[1]) for l in data.decode('latin-1').split('\r\n') if l.startswith('HTTP/1.') and len(l.split()) > 1 and l.split()[1].isdigit()]
+    if big or slow:
+        desc['observed_body_lengths'] = [len(q.body) for q in observed]
     return {'ev': ev, 'lens': [len(cd) for cd in cands], 'par': par, 'desc': desc, 'client_statuses': statuses,
             'incomplete_at_origin': sum(1 for q in observed if not q.complete)}
 
@@ -194,13 +234,15 @@ def run(ctx):
             rnd.shuffle(part)
             seen, keep = set(), []
             for s in part:
-                k = (s['par']['kind'], s['par']['payload'])
+                k = (s['par']['kind'], s['par']['payload'], s['par']['shift'])
                 if k not in seen:
                     seen.add(k)
                     keep.append(s)
             part = keep
         sq = squidctl.Squid(ctx, tree, name='c03-%s' % relaxed, clock=False,
-                            conf_extra='relaxed_header_parser %s\nrequest_timeout 5 seconds\nclient_lifetime 20 seconds\n' % ('on' if relaxed else 'off'))
+                            conf_extra='relaxed_header_parser %s\nrequest_timeout 5 seconds\nclient_lifetime 20 seconds\n' % ('on' if relaxed else 'off') +
+                            'url_rewrite_program /usr/bin/env python3 %s 1.0\nurl_rewrite_children 16 startup=8 idle=1 concurrency=0\n' % os.path.join(VERIF, 'e2e', 'slow_helper.py') +
+                            'acl slowc03 urlpath_regex /aslow$\nurl_rewrite_access allow slowc03\nurl_rewrite_access deny all\n')
         sq.start()
         try:
             async def main():
@@ -221,11 +263,17 @@ def run(ctx):
     ctx.cov['impl_distinct'] = len({json.dumps(o['par'], sort_keys=True) for o in out})
     ctx.cov['requests_forwarded'] = sum(len(o['ev']) for o in out)
     ctx.cov['streams_with_anomalous_message_forwarded'] = sum(1 for o in out if any(e['key'] == 'a' for e in o['ev']))
+    ctx.cov['big_bodies_forwarded_intact_under_back_pressure'] = sum(1 for o in out if o['par']['kind'] in ('big_te', 'big_cl') and any(e['key'] == 'a' and e['okfor'] for e in o['ev']))
+    ctx.cov['bodies_forwarded_intact_after_a_second_without_consumer'] = sum(1 for o in out if o['par']['kind'] in ('slow_te', 'slow_cl') and any(e['key'] == 'aslow' and e['okfor'] for e in o['ev']))
+    ctx.cov['big_body_streams'] = sum(1 for o in out if o['par']['kind'] in ('big_te', 'big_cl'))
+    if ctx.cov['big_bodies_forwarded_intact_under_back_pressure'] * 2 < ctx.cov['big_body_streams']:
+        raise vlib.MachineryError('most large bodies did not reach the origin: the back-pressure scenarios are vacuous (%d of %d)' % (
+            ctx.cov['big_bodies_forwarded_intact_under_back_pressure'], ctx.cov['big_body_streams']))
     ctx.cov['streams_rejected_by_squid'] = sum(1 for o in out if any(s >= 400 for s in o['client_statuses']))
     for o in out[:2]:
         ctx.sample({'par': o['par'], 'head': o['desc']['head'], 'observed': o['ev'], 'client_statuses': o['client_statuses']})
     ctx.cov['rule'] = ('anomaly catalogue (%d kinds, FramingScen.tla) x position in a 2-3 message pipeline x request-shaped payload after the ambiguous region x '
-                       'relaxed_header_parser; each stream sent on one connection; the complete requests the origin saw are validated by TLC against Framing.tla '
+                       'relaxed_header_parser, plus well-formed 1.8 MB chunked / Content-Length bodies made of framing-like units in six alignments sent while the origin does not read, plus 140 KB bodies with request-shaped units at buffer-capacity offsets sent while the request has no body consumer (slow url_rewrite helper); each stream sent on one connection; the complete requests the origin saw are validated by TLC against Framing.tla '
                        '(prefix of one admissible reading). Non-trivial = distinct class.' % len(_ALLOWED))
     ctx.assumptions += ['only requests the origin received completely count as forwarded; a visibly truncated upstream message is an abort, not a smuggled request',
                         'admissible readings per anomaly kind are the catalogue in FramingScen.tla (RFC 9112 6.3 plus permitted tolerances); Squid being stricter never alarms']
